@@ -61,7 +61,7 @@ theorem unknown_flagged (db : DB) (cat n : Str) (hp : printed cat n = true) (hu 
   unfold algTexts
   unfold printed at hp
   simp only
-  have : (Text.strip (gssNormalize cat n)).isEmpty = false := by simpa using hp
+  have : (Text.stripU (gssNormalize cat n)).isEmpty = false := by simpa using hp
   rw [this, hu]; rfl
 
 /-- JSON: an unknown name gets exactly the failure note "using unknown algorithm" -/
@@ -75,7 +75,7 @@ theorem known_not_unknown (db : DB) (cat n : Str) (e : Entry) (hp : printed cat 
   unfold algTexts
   unfold printed at hp
   simp only
-  have : (Text.strip (gssNormalize cat n)).isEmpty = false := by simpa using hp
+  have : (Text.stripU (gssNormalize cat n)).isEmpty = false := by simpa using hp
   rw [this, hl]; rfl
 
 /-! ### text and JSON agree per level (for names the database knows) -/
